@@ -14,7 +14,8 @@ namespace IsalVerif.Dispatch
 theorem C12_check_sound (p : List Instr) (need : Nat → List Isa) (minBits : List Bit)
     (h : checkResolver p need minBits = true) (cfg : Cfg) (hc : Consistent cfg) (hv : Conventions cfg)
     (hmin : ∀ b ∈ minBits, bitSet cfg b = true) :
-    ∃ s, select p cfg = some (.sym s) ∧ ∀ i ∈ need s, Avail cfg i :=
+    ∃ s, select p cfg = some (.sym s) ∧ (∀ i ∈ need s, Avail cfg i) ∧
+      (run cfg p (4 * p.length) c0).ud = false :=
   checkResolver_sound p need minBits h cfg hc hv hmin
 
 /-- symbolic execution is exact and complete for every configuration -/
